@@ -53,6 +53,11 @@ def main(tier='quick'):
         # sub-operations announced, none supplied: still exactly one final response
         tr, extra = K.run_move_scp(rng, pol, rng.choice(K.MIDS), rng.choice([1, 3, 255]), 2, [], supplied=0)
         add(tr, extra, {'svc': 'qr_move_scp', 'n': 2, 'supplied': 0, 'outcomes': [], 'policy': str(pol)})
+        # the handler signals an error / the destination refuses the association / did not accept the class of the
+        # k-th instance: what was sent before was sent once and in order, and there is exactly one final response
+        for fault in ('handler', 'rejected', ('refused', 0), ('refused', 1), ('refused', 2)):
+            tr, extra = K.run_move_scp(rng, pol, rng.choice(K.MIDS), rng.choice([1, 3, 255]), 3, [0, 0xB000, 0], fault=fault)
+            add(tr, extra, {'svc': 'qr_move_scp', 'n': 3, 'policy': str(pol), 'fault': fault})
         for n in (7, 20, 50):
             tr, extra = K.run_move_scp(rng, pol, rng.choice(K.MIDS), 1, n, [rng.choice(outs) for _ in range(n)])
             add(tr, extra, {'svc': 'qr_move_scp', 'n': n, 'policy': str(pol)})
